@@ -67,6 +67,9 @@ def key_st(draw, n):
     k = draw(st.integers(0, 4))
     inr = st.integers(-n, n - 1) if n else st.integers(0, 0)
     vals = [draw(st.one_of(inr, inr, inr, st.integers(lo, hi))) for _ in range(k)]
+    if kind == "imat" and draw(st.booleans()):
+        shapes = [(1, k)] + [(r, k // r) for r in (2, 3) if k % r == 0]
+        return [kind, vals, list(draw(st.sampled_from(shapes)))]
     return [kind, vals]
 
 
@@ -78,7 +81,8 @@ def key_obj(key):
         return slice(key[1], key[2], key[3])
     if k == "list":
         return list(key[1])
-    return matrix(list(key[1]), (len(key[1]), 1), "i")
+    # "the size of the index matrix is ignored" (matrices.rst): rows, columns and rectangles of indices
+    return matrix(list(key[1]), tuple(key[2]) if len(key) > 2 else (len(key[1]), 1), "i")
 
 
 @st.composite
